@@ -39,7 +39,56 @@ func loadSpec(name string) (map[string][]string, error) {
 }
 
 // checkTable compares rows with the stored spec; one obligation per key.
+// renumberRows makes the "#n" ordinals of rows that share a base key independent of source order: rows are numbered
+// in the order of their attribute sets, so swapping two branches of an if/switch does not permute the keys.
+func renumberRows(rows []siteRow, norm func([]string) []string) []siteRow {
+	type ent struct {
+		idx  int
+		sort string
+	}
+	base := func(k string) (string, bool) {
+		j := strings.LastIndex(k, "#")
+		if j < 0 || j == len(k)-1 {
+			return k, false
+		}
+		for _, ch := range k[j+1:] {
+			if ch < '0' || ch > '9' {
+				return k, false
+			}
+		}
+		return k[:j], true
+	}
+	groups := map[string][]ent{}
+	var order []string
+	for i, row := range rows {
+		b, ok := base(row.Key)
+		if !ok {
+			continue
+		}
+		if _, seen := groups[b]; !seen {
+			order = append(order, b)
+		}
+		at := row.Attrs
+		if norm != nil {
+			at = norm(at)
+		}
+		at = append([]string{}, at...)
+		sort.Strings(at)
+		groups[b] = append(groups[b], ent{i, strings.Join(at, " ; ")})
+	}
+	out := append([]siteRow{}, rows...)
+	for _, b := range order {
+		g := groups[b]
+		sort.SliceStable(g, func(i, j int) bool { return g[i].sort < g[j].sort })
+		for n, e := range g {
+			out[e.idx].Key = fmt.Sprintf("%s#%d", b, n+1)
+		}
+	}
+	return out
+}
+
 func checkTable(r *R, rule, name string, rows []siteRow, what string) {
+	rows = renumberRows(rows, nil)
 	if genSpec {
 		m := map[string][]string{}
 		for _, row := range rows {
